@@ -37,8 +37,21 @@ def main():
 
         payload = common.load_replay(a.replay)
         case = common.unhex(payload["case"])
-        m1 = mod.replay(case)
-        m2 = mod.replay(case)
+        if isinstance(case, dict) and case.get("kind") == "crash_main":
+            # the whole check crashed inside auditok outside any work item: the replay is the check itself
+            import subprocess
+
+            r = subprocess.run([sys.executable, os.path.abspath(__file__), a.prop, "--tier", case.get("tier", "quick")],
+                               env=dict(os.environ, VERIF_NO_EVIDENCE="1"), capture_output=True, text=True)
+            if r.returncode == 0:
+                print("replay passes: %s" % a.replay)
+                return 0
+            print("VIOLATION property=%s replay=%s" % (a.prop, a.replay))
+            print("  what: %s" % (r.stdout.strip().splitlines() or ["check failed"])[-1])
+            return 1
+        rp = common.replay_crash if (isinstance(case, dict) and case.get("kind") == "crash") else mod.replay
+        m1 = rp(case)
+        m2 = rp(case)
         if (m1 is None) != (m2 is None):
             print("HARNESS-ERROR: replay is not deterministic: %r / %r" % (m1, m2))
             return 2
@@ -56,10 +69,20 @@ if __name__ == "__main__":
         rc = main()
     except SystemExit:
         raise
-    except BaseException:  # a bug in the machinery is never a verdict about auditok
+    except BaseException as exc:  # a bug in the machinery is never a verdict about auditok
         import traceback
 
         traceback.print_exc()
+        from vlib import common
+
+        if isinstance(exc, Exception) and common.crashed_in_library(exc.__traceback__) and len(sys.argv) > 1 and "--replay" not in sys.argv:
+            # ... but an exception escaping from auditok on input the unchanged tree accepts is (rule R5)
+            tier = "thorough" if "thorough" in sys.argv else "quick"
+            what = "auditok raised %s: %s where the harness gave it valid input" % (type(exc).__name__, " ".join(str(exc).split())[:200])
+            path = common.write_replay(sys.argv[1], "crash_main %s" % type(exc).__name__, what, {"kind": "crash_main", "tier": tier})
+            print("VIOLATION property=%s replay=%s" % (sys.argv[1], path))
+            print("  what: %s" % what)
+            sys.exit(1)
         print("HARNESS-ERROR: the check itself failed (see traceback)")
         rc = 2
     sys.exit(rc)
